@@ -20,6 +20,12 @@ Q(name) == "\"" \o name \o "\""
 RECURSIVE Join(_, _)
 Join(strs, sep) == IF strs = <<>> THEN "" ELSE IF Len(strs) = 1 THEN strs[1] ELSE strs[1] \o sep \o Join(Tail(strs), sep)
 
+\* window frame: [unit |-> "ROWS" | "RANGE", lo |-> bound, hi |-> bound | <<>>]; a bound is <<"P", n>> (n PRECEDING, -1 = UNBOUNDED),
+\* <<"F", n>> (n FOLLOWING) or <<"C">> (CURRENT ROW); a single bound (hi = <<>>) is the short form  ROWS <bound>
+BoundText(b) == IF b[1] = "C" THEN "CURRENT ROW"
+                ELSE (IF b[2] < 0 THEN "UNBOUNDED" ELSE ToString(b[2])) \o (IF b[1] = "P" THEN " PRECEDING" ELSE " FOLLOWING")
+FrameText(f) == IF f.hi = <<>> THEN f.unit \o " " \o BoundText(f.lo)
+                ELSE f.unit \o " BETWEEN " \o BoundText(f.lo) \o " AND " \o BoundText(f.hi)
 RECURSIVE RF(_), RFSeq(_)
 RFSeq(s) == [i \in DOMAIN s |-> RF(s[i])]
 RF(t) ==
@@ -40,7 +46,8 @@ RF(t) ==
       [] t.k = "case" -> "(CASE WHEN " \o RF(t.w) \o " THEN " \o RF(t.t) \o " ELSE " \o RF(t.e) \o " END)"
       [] t.k = "win" -> t.f \o "(" \o Join(RFSeq(t.args), ", ") \o ") OVER (" \o
                         (IF t.part = <<>> THEN "" ELSE "PARTITION BY " \o Join(RFSeq(t.part), ", ")) \o
-                        (IF t.ord = <<>> THEN "" ELSE " ORDER BY " \o Join(RFSeq(t.ord), ", ")) \o ")"
+                        (IF t.ord = <<>> THEN "" ELSE " ORDER BY " \o Join(RFSeq(t.ord), ", ")) \o
+                        (IF "frame" \in DOMAIN t THEN " " \o FrameText(t.frame) ELSE "") \o ")"
       [] OTHER -> "?"
 
 Item(t) == IF Alias(t) # "" THEN RF(t) \o " AS " \o Q(Alias(t)) ELSE RF(t)
